@@ -243,7 +243,8 @@ struct RunnerS {
         const std::uint64_t n = d.size();
         // small domains are repeated with every rotation of the packing, so that every tuple is evaluated in every lane position
         const std::uint64_t budget = opt().thorough ? (1ull << 28) : (1ull << 25);
-        const unsigned rots = (W > 1 && n * W <= budget) ? W : 1;
+        // (not for operations whose second operand is one scalar for the whole vector: lane_pass == false marks those)
+        const unsigned rots = (W > 1 && vt.lane_pass && n * W <= budget) ? W : 1;
         for (unsigned rot = 0; rot < rots; ++rot)
             for (std::uint64_t start = 0; start < n; start += VX_BLK) {
                 cur = start;
